@@ -277,40 +277,58 @@ static Expr build(Ctx &cx, const Node &n) {
 // ---------------------------------------------------------------- observation
 static bool g_flush = false;
 
-static char equal_direct(Expr a, Expr b) {
-  try { return Equal(a, b) ? '1' : '0'; }
-  catch (const UnsupportedError &) { return 'U'; }
-  catch (const std::exception &) { return 'E'; }
+// Which kind an UnsupportedError names ("unsupported: <expr::str(kind)>"); used only to attribute a
+// finding to a kind in the part of the line after '#', never compared with the model.
+static int unsupported_kind(const char *what) {
+  const char *p = strstr(what, "unsupported: ");
+  if (!p) return 0;
+  p += strlen("unsupported: ");
+  for (int k = expr::FIRST_EXPR; k <= expr::LAST_EXPR; ++k)
+    if (!strcmp(p, expr::str((expr::Kind)k))) return k;
+  return 0;
+}
+static const char *kind_name(int k) {
+  for (auto &kv : g_kind_by_name) if ((int)kv.second == k) return kv.first.c_str();
+  return "?";
+}
+
+struct Outcome { char r; unsigned char kind; };
+
+static Outcome equal_direct(Expr a, Expr b) {
+  try { return {Equal(a, b) ? '1' : '0', 0}; }
+  catch (const UnsupportedError &e) { return {'U', (unsigned char)unsupported_kind(e.what())}; }
+  catch (const std::exception &) { return {'E', 0}; }
 }
 
 // Equal(Ti, Tj) for all i, j evaluated in a forked child that streams its answers through a pipe;
 // when the child dies inside a call that call is recorded as 'X' and a new child resumes after it.
-static void equal_matrix_forked(const std::vector<Expr> &es, std::vector<char> &out) {
+static void equal_matrix_forked(const std::vector<Expr> &es, std::vector<Outcome> &out) {
   size_t n = es.size(), total = n * n, k = 0;
-  out.assign(total, '?');
+  out.assign(total, Outcome{'?', 0});
   while (k < total) {
     int fds[2];
-    if (pipe(fds) != 0) { out[k++] = 'E'; continue; }
+    if (pipe(fds) != 0) { out[k++].r = 'E'; continue; }
     fflush(stdout);
     pid_t pid = fork();
-    if (pid < 0) { close(fds[0]); close(fds[1]); out[k++] = 'E'; continue; }
+    if (pid < 0) { close(fds[0]); close(fds[1]); out[k++].r = 'E'; continue; }
     if (pid == 0) {
       close(fds[0]);
       int fd = open("/dev/null", O_WRONLY);
       if (fd >= 0) { dup2(fd, 2); dup2(fd, 1); }
       for (size_t q = k; q < total; ++q) {
-        char r = equal_direct(es[q / n], es[q % n]);
-        if (write(fds[1], &r, 1) != 1) _exit(3);
+        Outcome r = equal_direct(es[q / n], es[q % n]);
+        char buf[2] = {r.r, (char)r.kind};
+        if (write(fds[1], buf, 2) != 2) _exit(3);
       }
       _exit(0);
     }
     close(fds[1]);
-    char c;
-    while (k < total && read(fds[0], &c, 1) == 1) out[k++] = c;
+    char c[2];
+    while (k < total && read(fds[0], c, 2) == 2) out[k++] = Outcome{c[0], (unsigned char)c[1]};
     close(fds[0]);
     int st = 0;
     waitpid(pid, &st, 0);
-    if (k < total) out[k++] = 'X';
+    if (k < total) out[k++].r = 'X';
   }
 }
 
@@ -363,19 +381,17 @@ static void observe(Ctx &cx, const std::vector<Node> &ts, const char *note) {
   }
   bool rk = false;
   for (auto &t : ts) rk = rk || risky(t);
-  if (rk) {
-    std::vector<char> m;
-    equal_matrix_forked(es, m);
-    for (char c : m) printf(" %c", c);
-  } else {
-    for (Expr a : es) for (Expr b : es) printf(" %c", equal_direct(a, b));
-  }
+  std::vector<Outcome> m;
+  if (rk) equal_matrix_forked(es, m);
+  else for (Expr a : es) for (Expr b : es) m.push_back(equal_direct(a, b));
+  std::string named;   // kinds named by the exceptions, in order of the U answers
+  for (Outcome o : m) { printf(" %c", o.r); if (o.r == 'U') { named += " "; named += kind_name(o.kind); } }
   for (Expr a : es) {
     try { printf(" %s", hex64(std::hash<Expr>()(a)).c_str()); }
-    catch (const UnsupportedError &) { printf(" U"); }
+    catch (const UnsupportedError &e) { printf(" U"); named += " "; named += kind_name(unsupported_kind(e.what())); }
     catch (const std::exception &) { printf(" E"); }
   }
-  printf(" # %s\n", note);
+  printf(" # %s #%s\n", note, named.c_str());
   if (g_flush) fflush(stdout);
   ++g_triples;
 }
@@ -417,6 +433,7 @@ static std::string gen_str() {
 template <size_t N> static std::string pick(const KindName (&a)[N]) { return a[R.below((int)N)].name; }
 
 static int g_max_arity = 5;
+static bool g_root = false;   // the next node generated is a root: rarely a leaf
 static Node gen_num(int d, int &budget);
 static Node gen_log(int d, int &budget);
 static Node gen_sym(int d, int &budget);
@@ -442,7 +459,8 @@ static Node gen_count(int d, int &budget) {
 }
 static Node gen_num(int d, int &budget) {
   --budget;
-  if (d <= 0 || budget <= 0 || R.chance(22)) return leaf_num();
+  bool root = g_root; g_root = false;
+  if (d <= 0 || budget <= 0 || R.chance(root ? 6 : 22)) return leaf_num();
   Node n; int r = R.below(100);
   if (r < 18) { n.tag = 'u'; n.kind = pick(UN_KINDS); n.ch.push_back(gen_num(d - 1, budget)); }
   else if (r < 42) { n.tag = 'b'; n.kind = pick(ARITH_KINDS); n.ch.push_back(gen_num(d - 1, budget)); n.ch.push_back(gen_num(d - 1, budget)); }
@@ -456,14 +474,15 @@ static Node gen_num(int d, int &budget) {
   else if (r < 74) { n.tag = 'f'; n.idx = R.below(NUM_FUNCS); int k = gen_arity(budget, 0); for (int i = 0; i < k; ++i) n.ch.push_back(gen_sym(d - 1, budget)); }
   else if (r < 88) { n.tag = 't'; n.kind = pick(NUMITER_KINDS); int k = gen_arity(budget, 0); for (int i = 0; i < k; ++i) n.ch.push_back(gen_num(d - 1, budget)); }
   else if (r < 93) { n.tag = 't'; n.kind = "NUMBEROF"; int k = gen_arity(budget, 1); for (int i = 0; i < k; ++i) n.ch.push_back(gen_num(d - 1, budget)); }
-  else if (r < 98) return gen_count(d, budget);
+  else if (r < 99) return gen_count(d, budget);
   else { n.tag = 't'; n.kind = "NUMBEROF_SYM"; int k = gen_arity(budget, 1); for (int i = 0; i < k; ++i) n.ch.push_back(gen_sym(d - 1, budget)); }
   return n;
 }
 static Node gen_log(int d, int &budget) {
   --budget;
   Node n;
-  if (d <= 0 || budget <= 0 || R.chance(15)) { n.tag = 'l'; n.idx = R.below(2); return n; }
+  bool root = g_root; g_root = false;
+  if (d <= 0 || budget <= 0 || R.chance(root ? 4 : 15)) { n.tag = 'l'; n.idx = R.below(2); return n; }
   int r = R.below(100);
   if (r < 10) { n.tag = 'u'; n.kind = "NOT"; n.ch.push_back(gen_log(d - 1, budget)); }
   else if (r < 28) { n.tag = 'b'; n.kind = pick(BINLOG_KINDS); n.ch.push_back(gen_log(d - 1, budget)); n.ch.push_back(gen_log(d - 1, budget)); }
@@ -471,7 +490,7 @@ static Node gen_log(int d, int &budget) {
   else if (r < 68) { n.tag = 'b'; n.kind = pick(LCOUNT_KINDS); n.ch.push_back(gen_num(d - 1, budget)); n.ch.push_back(gen_count(d - 1, budget)); }
   else if (r < 76) { n.tag = 'i'; n.kind = "IMPLICATION"; for (int i = 0; i < 3; ++i) n.ch.push_back(gen_log(d - 1, budget)); }
   else if (r < 88) { n.tag = 't'; n.kind = pick(ITLOG_KINDS); int k = gen_arity(budget, 0); for (int i = 0; i < k; ++i) n.ch.push_back(gen_log(d - 1, budget)); }
-  else { n.tag = 't'; n.kind = R.chance(75) ? "ALLDIFF" : "NOT_ALLDIFF"; int k = gen_arity(budget, 0); for (int i = 0; i < k; ++i) n.ch.push_back(gen_num(d - 1, budget)); }
+  else { n.tag = 't'; n.kind = R.chance(85) ? "ALLDIFF" : "NOT_ALLDIFF"; int k = gen_arity(budget, 0); for (int i = 0; i < k; ++i) n.ch.push_back(gen_num(d - 1, budget)); }
   return n;
 }
 static Node gen_sym(int d, int &budget) {
@@ -479,7 +498,7 @@ static Node gen_sym(int d, int &budget) {
   if (r < 68) return gen_num(d, budget);
   --budget;
   Node n;
-  if (r < 95) { n.tag = 's'; n.str = gen_str(); return n; }
+  if (r < 97) { n.tag = 's'; n.str = gen_str(); return n; }
   if (r < 99 && d > 0) { n.tag = 'i'; n.kind = "IFSYM"; n.ch.push_back(gen_log(d - 1, budget)); n.ch.push_back(gen_sym(d - 1, budget)); n.ch.push_back(gen_sym(d - 1, budget)); return n; }
   ++budget;
   return gen_log(d, budget);   // a logical call argument: the factory's AddArg(Expr) accepts it
@@ -488,8 +507,10 @@ static Node gen_tree(int maxd) {
   int budget = 4 + R.below(60);
   int d = 1 + R.below(maxd);
   int r = R.below(100);
-  if (r < 55) return gen_num(d, budget);
-  if (r < 92) return gen_log(d, budget);
+  g_root = true;
+  if (r < 57) return gen_num(d, budget);
+  if (r < 96) return gen_log(d, budget);
+  g_root = false;
   return gen_sym(d, budget);
 }
 
